@@ -26,6 +26,7 @@ type consumerPlan struct {
 type relayScenario struct {
 	PushDead int // extra relay-push targets that refuse connections
 	PushMore int // extra healthy relay-push targets (each must receive the whole stream)
+	PreDelayMs int // consumers that joined before the publisher wait this long (housekeeping ticks pass) before it connects
 	AckEvery int // RTMP consumers acknowledge (message type 3) after every AckEvery bytes received, as real players do (0 = never)
 	Conf      srv.Conf
 	Shape     gen.Shape
@@ -254,6 +255,9 @@ func runRelay(c *fw.Ctx, sc relayScenario, rng *rand.Rand) (res relayResult) {
 		if p.JoinAt < 0 {
 			join(p, 0)
 		}
+	}
+	if sc.PreDelayMs > 0 {
+		time.Sleep(time.Duration(sc.PreDelayMs) * time.Millisecond)
 	}
 	var pr *ref.RtmpPublisher
 	connectPub := func() bool {
